@@ -112,6 +112,8 @@ type Profile struct {
 	Caps     []int64
 	MaxData  int
 	Adversarial int // percent of events drawn from the adversarial pool
+	LateNodes   []string // accounts that may register as nodes later in the trace
+	ShortBlocks bool     // keep block advances short (reward traces stay inside the exact fragment)
 }
 
 func (d *Driver) pick(xs []string) string { return xs[d.R.Intn(len(xs))] }
@@ -212,6 +214,12 @@ func (d *Driver) scheduled() []int64 {
 func (d *Driver) blocksEvent() Event {
 	sch := d.scheduled()
 	n := int64(1 + d.R.Intn(3))
+	if d.P.ShortBlocks {
+		if d.R.Intn(10) == 0 {
+			return Event{Kind: "Blocks", N: int64(1 + d.R.Intn(40))}
+		}
+		return Event{Kind: "Blocks", N: int64(1 + d.R.Intn(6))}
+	}
 	if len(sch) > 0 && d.R.Intn(100) < 70 {
 		// EndBlock at height X runs when advancing from X to X+1.
 		target := sch[0]
@@ -349,6 +357,26 @@ func (d *Driver) Next() Event {
 			o := cands[d.R.Intn(len(cands))]
 			prov := o.Provider
 			return Event{Kind: "Cancel", Creator: o.Creator, Provider: prov, Order: o.Id}
+		case "CreateLate":
+			var cands []string
+			for _, a := range d.P.LateNodes {
+				known := false
+				for _, n := range d.St.Nodes {
+					if n.A == a {
+						known = true
+					}
+				}
+				if !known {
+					cands = append(cands, a)
+				}
+			}
+			if len(cands) == 0 {
+				continue
+			}
+			a := d.pick(cands)
+			d.P.Nodes = append(d.P.Nodes, a)
+			d.do(Event{Kind: "Create", Creator: a})
+			return Event{Kind: "Reset", Creator: a, Status: 13}
 		case "Ready":
 			var cands []POrder
 			for _, o := range d.St.Orders {
